@@ -84,6 +84,17 @@ def check(run):
         one_case(run, [s1, s2], "momentum")
         one_case(run, [s2, s1], "angmom")
         run.count("nearly coincident centres")
+    from checks.common import sp_family, structured_transforms
+    for k, ls in enumerate([(0, 1), (0, 2), (1, 2), (0, 1, 2)]):
+        specs = sp_family(rng, ls, two_centres=(k % 2 == 0) or run.tier != "quick")
+        one_case(run, specs, "momentum")
+        one_case(run, list(reversed(specs)), "angmom")
+        run.count("SP-type shared exponent arrays")
+    specs = random_basis(rng, 2, 2, lmax=2)
+    for lab, T in structured_transforms(rng, sum(s_.size for s_ in specs)):
+        one_case(run, specs, "momentum", T)
+        one_case(run, specs, "angmom", T)
+        run.count("transform " + lab)
     for _ in range(3 if run.tier == "quick" else 20):
         specs = random_basis(rng, 1, 3, lmax=3)
         t = random_transform(rng, sum(x.size for x in specs))
